@@ -570,6 +570,138 @@ func ForkAtTheEdgeShapes() []*prog.Program {
 
 func sig(ref string) []prog.EvDef { return []prog.EvDef{{K: "signal", Ref: ref}} }
 
+// OrWithInnerFork: an inclusive fork / join pair one of whose branches forks again -- through a
+// parallel block (inner = "and") or through a task with two unconditional outgoing flows that
+// meet again in an exclusive merge (inner = "task"): the tokens created inside the branch belong
+// to the activation of the inclusive fork, the join waits for them.
+func OrWithInnerFork(inner string, dflt bool) *prog.Program {
+	b := prog.NewBuilder(fmt.Sprintf("or_inner_%s_d%v", inner, dflt))
+	s := b.AddNode("start", "")
+	dt := b.AddNode("task", "")
+	for i := 0; i < 2; i++ {
+		v := fmt.Sprintf("c%d", i)
+		b.N(dt).Writes = append(b.N(dt).Writes, v)
+		b.P.Dom[v] = []int{0, 1}
+		b.P.Vars0[v] = 0
+	}
+	o := b.AddNode("or", "")
+	j := b.AddNode("or", "")
+	b.Connect(s, dt, prog.Cond{})
+	b.Connect(dt, o, prog.Cond{})
+	// branch 0: forks again
+	var in0, out0 string
+	if inner == "and" {
+		f := b.AddNode("and", "")
+		g := b.AddNode("and", "")
+		for i := 0; i < 2; i++ {
+			t := b.AddNode("task", "")
+			b.Connect(f, t, prog.Cond{})
+			b.Connect(t, g, prog.Cond{})
+		}
+		in0, out0 = f, g
+	} else {
+		t := b.AddNode("task", "")
+		g := b.AddNode("and", "")
+		for i := 0; i < 2; i++ {
+			u := b.AddNode("task", "")
+			b.Connect(t, u, prog.Cond{})
+			b.Connect(u, g, prog.Cond{})
+		}
+		in0, out0 = t, g
+	}
+	b.Connect(o, in0, prog.Cond{K: "eq", V: "c0", C: 1})
+	b.Connect(out0, j, prog.Cond{})
+	t1 := b.AddNode("task", "")
+	b.Connect(o, t1, prog.Cond{K: "eq", V: "c1", C: 1})
+	b.Connect(t1, j, prog.Cond{})
+	if dflt {
+		t2 := b.AddNode("task", "")
+		b.N(o).Default = b.Connect(o, t2, prog.Cond{})
+		b.Connect(t2, j, prog.Cond{})
+	}
+	after := b.AddNode("task", "")
+	e := b.AddNode("end", "")
+	b.Connect(j, after, prog.Cond{})
+	b.Connect(after, e, prog.Cond{})
+	b.P.Tags = append(b.P.Tags, "or", "fork-in-or", inner+"-in-or")
+	if !dflt {
+		b.P.Tags = append(b.P.Tags, "or-nodefault")
+	}
+	return b.Done()
+}
+
+// orBlock: an inclusive fork / join pair with two conditional branches (tasks) on variable v
+// (values 1 and 2 activate one branch each, 3 both via ge), default to the first.
+func orBlock(b *prog.Builder, v string) (string, string) {
+	o := b.AddNode("or", "")
+	j := b.AddNode("or", "")
+	t1 := b.AddNode("task", "")
+	t2 := b.AddNode("task", "")
+	b.N(o).Default = b.Connect(o, t1, prog.Cond{})
+	b.Connect(o, t2, prog.Cond{K: "ge", V: v, C: 1})
+	b.Connect(t1, j, prog.Cond{})
+	b.Connect(t2, j, prog.Cond{})
+	return o, j
+}
+
+// OpenFindingSentinels: the scenarios of the open findings F6b and F6c, kept in the C05 corpus
+// so that they stay visible: an inclusive block inside a branch of another inclusive fork, and
+// inclusive blocks inside the second and third branch of a three-way parallel fork.
+func OpenFindingSentinels() []*prog.Program {
+	var out []*prog.Program
+	{
+		b := prog.NewBuilder("or_in_or")
+		s := b.AddNode("start", "")
+		dt := b.AddNode("task", "")
+		b.N(dt).Writes = []string{"a", "v"}
+		b.P.Dom["a"], b.P.Dom["v"] = []int{0, 1}, []int{0, 1}
+		b.P.Vars0["a"], b.P.Vars0["v"] = 0, 0
+		o := b.AddNode("or", "")
+		j := b.AddNode("or", "")
+		b.Connect(s, dt, prog.Cond{})
+		b.Connect(dt, o, prog.Cond{})
+		i1, o1 := orBlock(b, "v")
+		b.N(o).Default = b.Connect(o, i1, prog.Cond{})
+		b.Connect(o1, j, prog.Cond{})
+		t := b.AddNode("task", "")
+		b.Connect(o, t, prog.Cond{K: "eq", V: "a", C: 1})
+		b.Connect(t, j, prog.Cond{})
+		after := b.AddNode("task", "")
+		e := b.AddNode("end", "")
+		b.Connect(j, after, prog.Cond{})
+		b.Connect(after, e, prog.Cond{})
+		b.P.Tags = append(b.P.Tags, "or", "or-in-or", "sentinel")
+		out = append(out, b.Done())
+	}
+	{
+		b := prog.NewBuilder("or_in_wide_and")
+		s := b.AddNode("start", "")
+		dt := b.AddNode("task", "")
+		b.N(dt).Writes = []string{"v"}
+		b.P.Dom["v"] = []int{0, 1}
+		b.P.Vars0["v"] = 0
+		f := b.AddNode("and", "")
+		g := b.AddNode("and", "")
+		b.Connect(s, dt, prog.Cond{})
+		b.Connect(dt, f, prog.Cond{})
+		t := b.AddNode("task", "")
+		b.Connect(f, t, prog.Cond{})
+		b.Connect(t, g, prog.Cond{})
+		for i := 0; i < 2; i++ {
+			i1, o1 := orBlock(b, "v")
+			b.Connect(f, i1, prog.Cond{})
+			b.Connect(o1, g, prog.Cond{})
+		}
+		after := b.AddNode("task", "")
+		e := b.AddNode("end", "")
+		b.Connect(g, after, prog.Cond{})
+		b.Connect(after, e, prog.Cond{})
+		b.P.Tags = append(b.P.Tags, "or", "and", "or-in-wide-fork", "sentinel")
+		out = append(out, b.Done())
+	}
+	return out
+}
+
 // ThrowShapes: intermediate throw events next to catch events -- one reached late (behind a
 // task), one on a branch never taken: events handed to the instance meanwhile must not wait for
 // a node no token has reached.
